@@ -351,3 +351,70 @@ class Mir:
         for n, b in self.bodies.items():
             for bb, t in b.calls():
                 yield b, bb, t
+
+
+# ---- MIR-level inlining of crate helpers (so that intra-procedural path rules survive the extraction of helper functions) -----------------
+def _renumber(x, loff, boff):
+    """deep copy of a statement / terminator JSON with locals shifted by loff and block numbers by boff"""
+    if isinstance(x, dict):
+        out = {}
+        for k, v in x.items():
+            if k == 'l' and isinstance(v, int):
+                out[k] = v + loff
+            elif k == 'index' and isinstance(v, int):
+                out[k] = v + loff
+            elif k in ('target', 'unwind', 'otherwise') and isinstance(v, int):
+                out[k] = v + boff
+            elif k == 'targets' and isinstance(v, list):
+                out[k] = [[a, b + boff] for a, b in v]
+            elif k == 'succ' and isinstance(v, list):
+                out[k] = [b + boff for b in v]
+            else:
+                out[k] = _renumber(v, loff, boff)
+        return out
+    if isinstance(x, list):
+        return [_renumber(v, loff, boff) for v in x]
+    return x
+
+
+def inlined(mir, name, depth=2, max_blocks=400, skip=()):
+    """a Body for `name` in which the direct calls of non-recursive, non-closure crate functions are replaced by the callee's CFG
+    (arguments assigned to the callee's parameter locals, returns assigned to the call's destination)"""
+    import copy
+    src = mir.bodies[name]
+    j = copy.deepcopy(src.j)
+    cg = mir.call_graph()
+    rec = {n for comp in mir.sccs() if len(comp) > 1 or comp[0] in cg[comp[0]] for n in comp}
+    for _ in range(depth):
+        changed = False
+        nblocks0 = len(j['blocks'])
+        for b in range(nblocks0):
+            t = j['blocks'][b]['term']
+            if t['k'] != 'call':
+                continue
+            callee = t['callee'] or t['raw']
+            if callee not in mir.bodies or callee == name or callee in rec or callee in skip:
+                continue
+            cb = mir.bodies[callee]
+            if cb.kind == 'Closure' or len(cb.blocks) > max_blocks or t.get('target') is None:
+                continue
+            loff, boff = len(j['locals']), len(j['blocks'])
+            j['locals'].extend(cb.locals)
+            sp = t.get('span')
+            pre = []
+            for i, a in enumerate(t['args']):
+                pre.append({'lhs': {'l': loff + 1 + i, 'p': []}, 'rv': {'rk': 'use', 'ops': [a]}, 'span': sp})
+            for cblk in cb.blocks:
+                nb = _renumber(cblk, loff, boff)
+                if nb['term']['k'] == 'return':
+                    nb['stmts'].append({'lhs': t['dest'], 'rv': {'rk': 'use', 'ops': [{'move': {'l': loff, 'p': []}}]}, 'span': sp})
+                    nb['term'] = {'k': 'goto', 'target': t['target']}
+                j['blocks'].append(nb)
+            j['blocks'][b]['stmts'].extend(pre)
+            j['blocks'][b]['term'] = {'k': 'goto', 'target': boff, 'inlined': callee}
+            changed = True
+        if not changed:
+            break
+    nb = Body(j)
+    nb.inlined_from = name
+    return nb
